@@ -521,6 +521,7 @@ func render(t *tape.Tape, ws *Workspace, f *File, o Options) {
 	if f.Syntax == "proto2" || f.Syntax == "" {
 		label = "optional "
 	}
+	proto2Extension := false
 	short := f.Message[strings.LastIndex(f.Message, ".")+1:]
 	if o.LintClean {
 		w("// " + short + " is a message.\n")
@@ -537,6 +538,7 @@ func render(t *tape.Tape, ws *Workspace, f *File, o Options) {
 	}
 	// decide which files' types are referenced, then credit imports the way a
 	// linker does: the first import (in order) that makes the file visible.
+	rpcType := "" // an imported type that a service method may take as its request
 	credited := make([]bool, len(f.Imports))
 	for i, imp := range f.Imports {
 		if !imp.Used {
@@ -560,8 +562,25 @@ func render(t *tape.Tape, ws *Workspace, f *File, o Options) {
 				break
 			}
 		}
-		w(fmt.Sprintf("  %s.%s ref_%d = %d;\n", label, typ, i, num))
+		// the imported type is used in one of several ways; each of them makes the import a used one
+		form := "field"
+		if !o.LintClean {
+			form = tape.Pick(t, "ws.refform", []string{"field", "repeated", "map", "oneof", "field"})
+		}
+		switch form {
+		case "repeated":
+			w(fmt.Sprintf("  repeated .%s ref_%d = %d;\n", typ, i, num))
+		case "map":
+			w(fmt.Sprintf("  map<string, .%s> ref_%d = %d;\n", typ, i, num))
+		case "oneof":
+			w(fmt.Sprintf("  oneof ref_%d_choice {\n    .%s ref_%d = %d;\n  }\n", i, typ, i, num))
+		default:
+			w(fmt.Sprintf("  %s.%s ref_%d = %d;\n", label, typ, i, num))
+		}
 		num++
+		if rpcType == "" {
+			rpcType = "." + typ
+		}
 	}
 	for i := range f.Imports {
 		f.Imports[i].Used = credited[i]
@@ -589,6 +608,23 @@ func render(t *tape.Tape, ws *Workspace, f *File, o Options) {
 			w(fmt.Sprintf("  reserved %d to %d;\n  reserved \"old_name\", \"older_name\";\n", num+10, num+12))
 		}
 	}
+	if !o.LintClean && t.Draw("ws.shapes", 3) == 2 {
+		// syntax-specific shapes: proto2 extensions, required fields, defaults and groups; proto3
+		// optional; deep nesting and a recursive field everywhere
+		switch f.Syntax {
+		case "proto2":
+			w(fmt.Sprintf("  required string must = %d;\n  optional int32 with_default = %d [default = 7];\n", num, num+1))
+			w(fmt.Sprintf("  optional group Grp = %d {\n    optional int32 g = 1;\n  }\n  extensions 1000 to 1999;\n", num+2))
+			num += 3
+			proto2Extension = true
+		case "proto3":
+			w(fmt.Sprintf("  optional int32 maybe = %d;\n", num))
+			num++
+		}
+		w(fmt.Sprintf("  message L1 {\n    message L2 {\n      message L3 {\n        %sstring deep = 1;\n      }\n      %sL3 l3 = 1;\n    }\n    %sL2 l2 = 1;\n  }\n", label, label, label))
+		w(fmt.Sprintf("  %s%s self = %d;\n  %sL1.L2.L3 deepest = %d;\n", label, short, num, label, num+1))
+		num += 2
+	}
 	if !o.LintClean && t.Draw("ws.oddcomments", 4) == 3 {
 		// comments where no declaration claims them: before an option name, after the semicolon,
 		// between the last field and the closing brace of a one-line message
@@ -608,6 +644,9 @@ func render(t *tape.Tape, ws *Workspace, f *File, o Options) {
 		w(fmt.Sprintf("  %sstring broken = ;\n", label))
 	}
 	w("}\n")
+	if proto2Extension {
+		w(fmt.Sprintf("\nextend %s {\n  optional int32 ext_%s = 1000;\n}\n", short, strings.ToLower(short)))
+	}
 	if plantKind == "duplicate-message" {
 		w("\nmessage " + short + " {\n}\n")
 	}
@@ -620,13 +659,30 @@ func render(t *tape.Tape, ws *Workspace, f *File, o Options) {
 			w("  option allow_alias = true;\n")
 			w(fmt.Sprintf("  %s_UNSPECIFIED = 0;\n  %s_ONE = 1;\n  %s_UNO = 1;\n  %s_EINS = 1;\n  %s_ICHI = 1;\n}\n", up, up, up, up, up))
 		} else {
-			w(fmt.Sprintf("  %s_UNSPECIFIED = 0;\n  %s_ONE = 1;\n}\n", up, up))
+			w(fmt.Sprintf("  %s_UNSPECIFIED = 0;\n  %s_ONE = 1;\n  %s_MINUS = -1;\n}\n", up, up, up))
 		}
 	}
 	if f.HasService && !o.LintClean {
-		w(fmt.Sprintf("\nservice S%s {\n  rpc Do(%s) returns (%s);\n}\n", short[1:], short, short))
+		w(fmt.Sprintf("\nservice S%s {\n  rpc Do(%s) returns (%s);\n", short[1:], short, short))
+		if t.Draw("ws.streaming", 3) == 2 {
+			w(fmt.Sprintf("  rpc Watch(stream %s) returns (stream %s);\n", short, short))
+		}
+		if rpcType != "" && t.Draw("ws.rpcimported", 2) == 1 {
+			w(fmt.Sprintf("  rpc Use(%s) returns (%s) {\n    option deprecated = false;\n  }\n", rpcType, short))
+		}
+		w("}\n")
 	}
-	f.Content = b.String()
+	content := b.String()
+	if !o.LintClean {
+		// layout the compiler must cope with: CRLF line endings, no newline at the end of the file
+		switch t.Draw("ws.layout", 8) {
+		case 6:
+			content = strings.ReplaceAll(content, "\n", "\r\n")
+		case 7:
+			content = strings.TrimSuffix(content, "\n")
+		}
+	}
+	f.Content = content
 }
 
 // Mutate returns a copy of the workspace's file map with one tape-chosen
